@@ -3,6 +3,16 @@ import OxyModel.Model.Locks
 /-! C09: soundness of the Boolean discipline checker, and "conforms to disciplined facts ⇒ guarded". -/
 namespace Locks
 
+theorem run_split' {σ σf : St} {a b : List Ev} (h : run σ (a ++ b) = some σf) :
+    ∃ σm, run σ a = some σm ∧ run σm b = some σf := by
+  induction a generalizing σ with
+  | nil => exact ⟨σ, rfl, h⟩
+  | cons e a ih =>
+    simp only [List.cons_append, run] at h ⊢
+    cases hs : step σ e with
+    | none => simp [hs] at h
+    | some σ1 => rw [hs] at h; exact ih h
+
 theorem holds_sound {f : Fact} {ℓ : Nat} (h : f.holds ℓ = true) :
     ∃ m, (ℓ, m) ∈ f.locks ∧ (f.write = true → m = true) := by
   unfold Fact.holds at h
@@ -122,5 +132,67 @@ theorem conforms_guarded {fs : List Fact} {es : List Ev} {v ℓ : Nat}
     cases w with
     | true => rw [hw] at hmw; exact absurd (hmw rfl) (by simp)
     | false => simpa using h
+
+/-- the same for executions over lock/variable instances (several objects of one class, stacks) -/
+theorem conformsI_guarded {fs : List Fact} {es : List Ev} {vcls obj : Nat → Nat} {lockOf : Nat → Nat → Nat} {v c : Nat}
+    (hc : ConformsI fs vcls obj lockOf es) (hd : DisciplinedBy fs (vcls v) c) : Guarded (lockOf (obj v) c) v es := by
+  intro pre post t w σ he hr
+  obtain ⟨f, hf, hv, hw, hl⟩ := hc pre post t v w σ he hr
+  obtain ⟨m, hm, hmw⟩ := hd f hf hv
+  have h := hl (c, m) hm
+  unfold holdsFor
+  cases m with
+  | true =>
+    simp only [if_true] at h
+    cases w with
+    | true => simpa using h
+    | false => simp only [Bool.false_eq_true, if_false]; exact Or.inl h
+  | false =>
+    simp only [Bool.false_eq_true, if_false] at h
+    cases w with
+    | true => rw [hw] at hmw; exact absurd (hmw rfl) (by simp)
+    | false => simpa using h
+
+theorem isCounterB_sound {fs : List Fact} {v : Nat} (h : isCounterB fs v = true) : IsCounter fs v := by
+  intro f hf hv hw
+  unfold isCounterB at h
+  rw [List.all_eq_true] at h
+  have := h f hf
+  rw [hv, hw] at this
+  simp only [Nat.beq_refl, Bool.not_true, Bool.false_or] at this
+  exact Nat.eq_of_beq_eq_true this
+
+theorem noSplitB_sound {fs : List Fact} (h : noSplitB fs = true) : ∀ f ∈ fs, f.kind ≠ 3 := by
+  intro f hf hk
+  unfold noSplitB at h
+  rw [List.all_eq_true] at h
+  have := h f hf
+  rw [hk] at this
+  simp at this
+
+theorem updatesAtomic_of {fs : List Fact} {v ℓ : Nat} (hd : DisciplinedBy fs v ℓ) (hc : IsCounter fs v) :
+    UpdatesAtomicBy fs v ℓ := by
+  intro f hf hv hw
+  refine ⟨hc f hf hv hw, ?_⟩
+  obtain ⟨m, hm, hmw⟩ := hd f hf hv
+  rw [hmw hw] at hm
+  exact hm
+
+/-- executions that behave as the facts say at their update sites keep every update of a counter
+    variable inside one critical section of its lock -/
+theorem conformsU_atomic {fs : List Fact} {es : List Ev} {v ℓ : Nat} (hwf : WellFormed es)
+    (hu : ConformsU fs es) (ha : UpdatesAtomicBy fs v ℓ) : AtomicUpdates ℓ v es := by
+  intro pre post t he
+  obtain ⟨σf, hrun⟩ := hwf
+  rw [he] at hrun
+  obtain ⟨σ, hpre, _⟩ := run_split' hrun
+  obtain ⟨f, hf, hv, hw, hk⟩ := hu pre post t v σ he hpre
+  obtain ⟨hk1, hl⟩ := ha f hf hv hw
+  obtain ⟨p1, mid, σ1, e1, e2, e3, e4, e5⟩ := hk hk1
+  refine ⟨p1, mid, σ1, e1, e2, ?_, ?_, e5⟩
+  · have := e3 (ℓ, true) hl
+    simpa using this
+  · intro m
+    exact e4 (ℓ, true) hl m
 
 end Locks
